@@ -50,14 +50,61 @@ def base_model(rng, kind):
     return m
 
 
+class _BigSig:
+    def signature(self):
+        return "big-star-chain"
+
+    def to_json(self):
+        return {"kind": "big-star-chain"}
+
+
+def big_tables():
+    """260 leaves + the top of a 300-node unary chain = 261 children of the root (more than an 8-bit counter holds), depth 302,
+    261 samples, two trees (leaf 0 moves under the chain top in the right half), sites on a leaf, mid-chain and the chain top."""
+    tc = tskit.TableCollection(10.0)
+    nl, depth = 260, 300
+    for _ in range(nl + 1):
+        tc.nodes.add_row(flags=NODE_IS_SAMPLE, time=0.0)
+    chain = [tc.nodes.add_row(time=float(j + 1)) for j in range(depth)]
+    root = tc.nodes.add_row(time=1000.0)
+    tc.edges.add_row(0, 5, root, 0)
+    tc.edges.add_row(5, 10, chain[-1], 0)
+    for u in range(1, nl):
+        tc.edges.add_row(0, 10, root, u)
+    prev = nl
+    for c in chain:
+        tc.edges.add_row(0, 10, c, prev)
+        prev = c
+    tc.edges.add_row(0, 10, root, prev)
+    for j, (pos, node) in enumerate(((1.0, 3), (4.0, chain[depth // 2]), (7.0, chain[-1]))):
+        s = tc.sites.add_row(pos, "A")
+        tc.mutations.add_row(s, node, "C")
+        if j == 2:
+            tc.mutations.add_row(s, nl, "G", parent=tc.mutations.num_rows - 1)
+    tc.populations.add_row()
+    tc.sort()
+    return tc
+
+
 class Obj:
     """Objects a catalogue entry can be called on."""
 
     def __init__(self, rng, kind):
-        self.m = base_model(rng, kind)
-        self.tables = to_tables(self.m)
+        if kind == "big":
+            self.m = _BigSig()
+            self.tables = big_tables()
+        else:
+            self.m = base_model(rng, kind)
+            self.tables = to_tables(self.m)
         self.tables.provenances.add_row("{}", timestamp="2020")
         self.ts = self.tables.tree_sequence()
+        if kind == "wrongparents":
+            # a tree sequence that tree_sequence() accepts although the mutation parents at one site contradict the topology
+            from lib.props import c09_ext
+            r = c09_ext.wrong_parent_ts(self.ts, rng.choice(c09_ext.WRONG_PARENT_SHAPES))
+            if r is not None:
+                self.ts = r[0]
+                self.tables = self.ts.dump_tables()
         self.n = self.ts.num_nodes
         self.L = self.ts.sequence_length
         self.tree = self.ts.at_index(rng.randrange(self.ts.num_trees), sample_lists=rng.random() < 0.5)
@@ -149,6 +196,20 @@ def _idlist_adv(n_of, pool_of=None, null_ok=False, must=True):
             out.append(([v], mr))
             out.append((pool[:1] + [v], mr))
             out.append((np.array(pool[:1] + [v], dtype=np.int64), mr))
+        # argument forms (tuple, range, narrow / byte-swapped / read-only arrays) and HUGE ids that would wrap onto a
+        # valid id if truncated to 32 bits (2^32 + id): huge ids must be rejected like any other out-of-range id
+        good = pool[:1] if pool else []
+        ro = np.array(pool, dtype=np.int32)
+        ro.setflags(write=False)
+        out += [(tuple(pool), None), (range(len(pool)), None), (np.array([v for v in pool if v < 128], dtype=np.int8), None), (np.array(pool, dtype=">i4"), None),
+                (np.array(pool, dtype=">i8"), None), (ro, None), (np.array(pool, dtype=np.int32).reshape(-1, 1)[:, 0], None),
+                (np.array(pool, dtype=object), None), (iter(pool), None), (np.array(0, dtype=np.int32), None),
+                (np.array(pool, dtype=bool), None), (bytes(len(pool)), None)]
+        if must:
+            wrap = 2 ** 32 + (int(good[0]) if good else 0)
+            out += [([wrap], True), (good + [wrap], True), ((wrap,), True), (np.array(good + [wrap], dtype=np.int64), True),
+                    (np.array([wrap], dtype=np.uint64), True), ([2 ** 32], True), (np.array([n], dtype=">i4"), True),
+                    (tuple(good + [n]), True), (np.array(good + [n], dtype=np.int16), True), ([2 ** 64 + (int(good[0]) if good else 0)], True)]
         out += [([2 ** 31], None), ([2 ** 63], None), (np.array([0.5, 1.5]), None), ("abc", None), (None, None),
                 (np.zeros((2, 2), dtype=np.int32), None), ([[0]], None), (np.array([], dtype=np.int32), None),
                 (np.arange(0, 10 * max(n, 1), dtype=np.int32), None), ([0, 0], None), (3, None),
@@ -169,6 +230,10 @@ def _sample_sets_adv(o):
            ([[-2]], True), ([s[:1] + [n]], True), ([[2 ** 31 - 1]], True), ([[2 ** 31]], None), ([["a"]], None),
            ([[0.5]], None), (None, None), (s, None), ([[[0]]], None), ([np.array(s, dtype=np.int64)], None),
            ([np.zeros((2, 2))], None), ([list(range(n))], None)]
+    w = 2 ** 32 + (int(s[0]) if s else 0)
+    out += [([[w]], True), ([s[:1] + [w]], True), ([np.array([w], dtype=np.int64)], True), ([[2 ** 32]], True), ((tuple(s),), None),
+            ([tuple(s[:1]) + (n,)], True), ([np.array(s[:1] + [n], dtype=np.int64)], True), ([np.array(s, dtype=">i4")], None),
+            (np.array([s], dtype=np.int32), None), ([s, [n]], True), ([[n], s], True), ([s, s[:1] + [-1]], True)]
     return out
 
 
@@ -199,15 +264,26 @@ def _intervals_adv(o):
 INTERVALS = Slot(lambda o: [[0, o.L / 2]], _intervals_adv, "intervals")
 
 
-def _indexes_adv(k):
+def _indexes_adv(k, nsets=None):
     def adv(o):
-        return [(v, None) for v in ([], [(0,) * k], [(0,) * (k + 1)], [(5,) * k], [(-1,) * k], [(2 ** 31,) * k],
-                                    None, [(0.5,) * k], "a", [[0] * k] * 3, np.zeros((2, k), dtype=np.int64), [(1,) * k])]
+        out = [(v, None) for v in ([], [(0,) * k], [(0,) * (k + 1)], [(5,) * k], [(-1,) * k], [(2 ** 31,) * k],
+                                   None, [(0.5,) * k], "a", [[0] * k] * 3, np.zeros((2, k), dtype=np.int64), [(1,) * k])]
+        if nsets is not None:
+            # a sample-set index is an identifier: == number of sets, negative or huge (2^32 would wrap onto set 0) must raise,
+            # in every position of the tuple and as list / tuple / int64 array
+            out.append(([(nsets - 1,) * k], None))
+            for bad in (nsets, nsets + 1, -1, -2, 2 ** 31 - 1, 2 ** 32, 2 ** 32 + 1):
+                for pos in range(k):
+                    tup = tuple(bad if j == pos else 0 for j in range(k))
+                    out.append(([tup], True))
+                out.append(([(0,) * k, (bad,) * k], True))
+                out.append((np.array([(bad,) * k], dtype=np.int64), True))
+        return out
     return adv
 
 
-def INDEXES(k):
-    return Slot(lambda o: [(0,) * (k - 1) + (1,)], _indexes_adv(k), f"indexes{k}")
+def INDEXES(k, nsets=None):
+    return Slot(lambda o: [(0,) * (k - 1) + (1,)], _indexes_adv(k, nsets), f"indexes{k}")
 
 
 def _weights_adv(o):
@@ -257,8 +333,11 @@ def consume(r, depth=0):
 CAT = []
 
 
-def C(name, target, fn, slots, probe=True):
-    CAT.append({"name": name, "target": target, "fn": fn, "slots": slots})
+def C(name, target, fn, slots, probe=True, reps=None, memcheck=True):
+    """reps: how many repetitions (input kinds) of this entry the quick tier runs (None = all); entries that hardly look at
+    the input object do not need five inputs.  memcheck=False: not under valgrind (the entry asks for multi-GB blocks on
+    purpose; valgrind's shadow memory for them does not fit under the companion's RLIMIT_AS and valgrind itself aborts)."""
+    CAT.append({"name": name, "target": target, "fn": fn, "slots": slots, "reps": reps, "memcheck": memcheck})
 
 
 def _tree_methods():
@@ -354,8 +433,8 @@ def _ts_methods():
         C(f"TreeSequence.{s}", "ts", (lambda s: lambda ts, a: getattr(ts, s)(sample_sets=a[0], windows=a[1], mode=a[2]))(s), [SAMPLE_SETS, WINDOWS, MODE])
     for s, k in (("divergence", 2), ("Fst", 2), ("f2", 2), ("Y2", 2), ("genetic_relatedness", 2), ("f3", 3), ("Y3", 3), ("f4", 4)):
         C(f"TreeSequence.{s}", "ts", (lambda s: lambda ts, a: getattr(ts, s)(sample_sets=[list(ts.samples())] * 4, indexes=a[0], windows=a[1], mode=a[2]))(s),
-          [INDEXES(k), WINDOWS, MODE])
-        C(f"TreeSequence.{s}/sets", "ts", (lambda s: lambda ts, a: getattr(ts, s)(sample_sets=a[0], indexes=a[1]))(s), [SAMPLE_SETS, INDEXES(k)])
+          [INDEXES(k, 4), WINDOWS, MODE])
+        C(f"TreeSequence.{s}/sets", "ts", (lambda s: lambda ts, a: getattr(ts, s)(sample_sets=a[0], indexes=a[1]))(s), [SAMPLE_SETS, INDEXES(k, 2)])
     C("TreeSequence.general_stat", "ts", lambda ts, a: ts.general_stat(a[0], lambda x: x, a[3], windows=a[1], mode=a[2], strict=False),
       [WEIGHTS, WINDOWS, MODE, Slot(lambda o: 1, lambda o: [(v, None) for v in [0, 1, 2, -1, 2 ** 31, None]], "output_dim")])
     C("TreeSequence.general_stat/f", "ts", lambda ts, a: ts.general_stat(np.ones((ts.num_samples, 1)), a[0], 1, strict=False),
@@ -366,9 +445,9 @@ def _ts_methods():
         C(f"TreeSequence.{s}", "ts", (lambda s: lambda ts, a: getattr(ts, s)(a[0], windows=a[1], mode=a[2]))(s), [WEIGHTS, WINDOWS, MODE])
     C("TreeSequence.trait_linear_model", "ts", lambda ts, a: ts.trait_linear_model(a[0], a[1], windows=a[2]), [WEIGHTS, WEIGHTS, WINDOWS])
     C("TreeSequence.genetic_relatedness_weighted", "ts", lambda ts, a: ts.genetic_relatedness_weighted(a[0], indexes=a[1], windows=a[2]),
-      [Slot(lambda o: np.ones((o.ts.num_samples, 2)), _weights_adv, "weights"), INDEXES(2), WINDOWS])
+      [Slot(lambda o: np.ones((o.ts.num_samples, 2)), _weights_adv, "weights"), INDEXES(2, 2), WINDOWS])
     C("TreeSequence.genetic_relatedness_vector", "ts", lambda ts, a: ts.genetic_relatedness_vector(a[0], windows=a[1], mode="branch", centre=a[2], nodes=a[3]),
-      [WEIGHTS, WINDOWS, BOOLANY, Slot(lambda o: None, _idlist_adv(lambda o: o.n, must=False), "nodes")])
+      [WEIGHTS, WINDOWS, BOOLANY, Slot(lambda o: None, _idlist_adv(lambda o: o.n), "nodes")])
     C("TreeSequence.genealogical_nearest_neighbours", "ts", lambda ts, a: ts.genealogical_nearest_neighbours(a[0], a[1], num_threads=a[2]),
       [SAMPLE_LIST, SAMPLE_SETS, Slot(lambda o: 0, lambda o: [(v, None) for v in [-1, 0, 1, 3, 64, None, "a"]], "num_threads")])
     C("TreeSequence.mean_descendants", "ts", lambda ts, a: ts.mean_descendants(a[0]), [SAMPLE_SETS])
@@ -376,18 +455,22 @@ def _ts_methods():
       [SAMPLE_SETS, WINDOWS, MODE, Slot(lambda o: 0, lambda o: [(v, None) for v in [-1, 0, 1, 2, 5, None, "a"]], "num_threads"), BOOLANY])
     C("TreeSequence.genetic_relatedness_matrix", "ts", lambda ts, a: ts.genetic_relatedness_matrix(sample_sets=a[0], windows=a[1], mode=a[2]), [SAMPLE_SETS, WINDOWS, MODE])
     C("TreeSequence.pair_coalescence_counts", "ts", lambda ts, a: ts.pair_coalescence_counts(sample_sets=a[0], indexes=a[1], windows=a[2], time_windows=a[3]),
-      [SAMPLE_SETS, INDEXES(2), WINDOWS, Slot(lambda o: "nodes", lambda o: [(v, None) for v in ["nodes", [0, INF], [0, 1, INF], [0, 1], [1, 0], [NAN, INF], [0, NAN], [], [0], [-1, INF], [0, 0, INF], None, 3]], "time_windows")])
+      [SAMPLE_SETS, INDEXES(2, 2), WINDOWS, Slot(lambda o: "nodes", lambda o: [(v, None) for v in ["nodes", [0, INF], [0, 1, INF], [0, 1], [1, 0], [NAN, INF], [0, NAN], [], [0], [-1, INF], [0, 0, INF], None, 3]], "time_windows")])
     C("TreeSequence.pair_coalescence_rates/sets", "ts", lambda ts, a: ts.pair_coalescence_rates(np.array([0.0, INF]), sample_sets=a[0], indexes=a[1]),
-      [SAMPLE_SETS, INDEXES(2)])
+      [SAMPLE_SETS, INDEXES(2, 2)])
     C("TreeSequence.pair_coalescence_quantiles/sets", "ts", lambda ts, a: ts.pair_coalescence_quantiles(np.array([0.5]), sample_sets=a[0], indexes=a[1]),
-      [SAMPLE_SETS, INDEXES(2)])
+      [SAMPLE_SETS, INDEXES(2, 2)])
     C("TreeSequence.pair_coalescence_quantiles", "ts", lambda ts, a: ts.pair_coalescence_quantiles(a[0], windows=a[1]),
       [Slot(lambda o: [0.5], lambda o: [(v, None) for v in [[], [0], [1], [0.5, 0.25], [-1], [2], [NAN], None, "a", [0, 0.5, 1]]], "quantiles"), WINDOWS])
     C("TreeSequence.pair_coalescence_rates", "ts", lambda ts, a: ts.pair_coalescence_rates(a[0], windows=a[1]),
       [Slot(lambda o: np.array([0, 1, INF]), lambda o: [(v if v is None else np.array(v, dtype=np.float64), None) for v in [[0, INF], [0, 1], [1, 0, INF], [0, NAN, INF], [], [0], None, [0, 0, INF], [-1, INF], [0, 1e308, INF]]] + [([0, 1, INF], None)], "time_windows"), WINDOWS])
     C("TreeSequence.ld_matrix", "ts", lambda ts, a: ts.ld_matrix(sample_sets=a[0], sites=a[1], mode=a[2], stat=a[3]),
       [Slot(lambda o: None, _sample_sets_adv, "sample_sets"),
-       Slot(lambda o: None, lambda o: [(v, None) for v in [[], [[]], [[0]], [[0], [0]], [[o.ts.num_sites]], [[-1]], [[0, 0]], [[1, 0]], [[0], [o.ts.num_sites]], [[0], [1], [2]], "a", [[2 ** 31]], [list(range(o.ts.num_sites))] * 2, [[0.5]]]], "sites"),
+       Slot(lambda o: None, lambda o: [(v, None) for v in [[], [[]], [[0]], [[0], [0]], [[0, 0]], [[1, 0]], [[0], [1], [2]], "a", [list(range(o.ts.num_sites))] * 2, [[0.5]],
+                                                        (tuple(range(o.ts.num_sites)),) * 2, [np.arange(o.ts.num_sites, dtype=np.int64)] * 2]]
+            # site ids outside [0, num_sites) - row count, negative, huge, wrapping - must raise in the row and in the column list
+            + [(v, True) for bad in (o.ts.num_sites, o.ts.num_sites + 1, -1, -2, 2 ** 31 - 1, 2 ** 31, 2 ** 32, 2 ** 32 + 1)
+               for v in ([[bad]], [[0], [bad]], [[bad], [0]], [list(range(o.ts.num_sites)) + [bad]] * 2)], "sites"),
        MODE, Slot(lambda o: "r2", lambda o: [(v, None) for v in ["D", "r", "D2", "pi2", "Dz", "D_prime", "r2", "D2_unbiased", "Dz_unbiased", "pi2_unbiased", "junk", None]], "stat")])
     C("TreeSequence.ld_matrix/positions", "ts", lambda ts, a: ts.ld_matrix(mode="branch", positions=a[0]),
       [Slot(lambda o: None, lambda o: [(v, None) for v in [[], [[0.0]], [[0.0, o.L / 2]], [[o.L]], [[-1.0]], [[NAN]], [[INF]], [[o.L / 2, 0.0]], [[0.0, 0.0]], [[0.0], [o.L]], "a"]], "positions")])
@@ -403,7 +486,7 @@ def _ts_methods():
     C("TreeSequence.edge_diffs", "ts", lambda ts, a: list(ts.edge_diffs(include_terminal=a[0], direction=a[1])),
       [BOOLANY, Slot(lambda o: 1, lambda o: [(v, None) for v in [1, -1, 0, 2, None, "a", 2 ** 31]], "direction")])
     C("TreeSequence.write_vcf", "ts", lambda ts, a: ts.as_vcf(individuals=a[0], ploidy=a[1], allow_position_zero=True),
-      [Slot(lambda o: None, _idlist_adv(lambda o: o.ts.num_individuals, must=False), "individuals"),
+      [Slot(lambda o: None, _idlist_adv(lambda o: o.ts.num_individuals), "individuals"),
        Slot(lambda o: None, lambda o: [(v, None) for v in [-1, 0, 1, 2, 3, 2 ** 31, None, "a", 1.5]], "ploidy")])
     C("TreeSequence.as_nexus/fasta", "ts", lambda ts, a: (ts.as_nexus(precision=a[0], include_alignments=False), ts.as_fasta(wrap_width=a[1], reference_sequence="A" * int(ts.sequence_length))),
       [PRECISION, Slot(lambda o: 60, lambda o: [(v, None) for v in [-1, 0, 1, 2 ** 31, None, "a", 1.5]], "wrap_width")])
@@ -493,8 +576,12 @@ def _table_methods():
           [Slot(lambda o: 0, lambda o: [(v, None) for v in [-1, 0, 1, 10 ** 6, 2 ** 31, 2 ** 63, None, "a", 1.5]], "num_rows")])
         C(f"{tname}.keep_rows", "tables", (lambda tname: lambda tc, a: (getattr(tc, tname).keep_rows(a[0]), list(getattr(tc, tname))))(tname),
           [Slot((lambda tname: lambda o: np.ones(getattr(o.tables, tname).num_rows, dtype=bool))(tname),
-                (lambda tname: lambda o: [(v, None) for v in [[], [True], [True] * 1000, np.ones(3, dtype=np.int32), None, "a", [[True]], np.zeros(0, dtype=bool),
-                                                             np.zeros(getattr(o.tables, tname).num_rows, dtype=bool), np.arange(getattr(o.tables, tname).num_rows) % 2 == 0]])(tname), "keep-mask")])
+                # "Must be the same length as the table" (docstring): any other length must raise
+                (lambda tname: lambda o: (lambda nr: [(v, True if (isinstance(v, (list, np.ndarray)) and np.ndim(v) == 1 and len(v) != nr) else None)
+                                                      for v in [[], [True], [True] * 1000, np.ones(3, dtype=np.int32), None, "a", [[True]], np.zeros(0, dtype=bool),
+                                                                np.zeros(nr, dtype=bool), np.arange(nr) % 2 == 0, np.ones(nr + 1, dtype=bool), np.ones(max(nr - 1, 0), dtype=bool),
+                                                                [True] * (nr + 1), tuple([True] * nr), np.ones(nr, dtype=np.uint8), np.ones(2 * nr, dtype=bool)[::2],
+                                                                np.ones(nr + 8, dtype=bool)[:nr]]])(getattr(o.tables, tname).num_rows))(tname), "keep-mask")])
         C(f"{tname}.__setitem__", "tables", (lambda tname: lambda tc, a: _setitem(getattr(tc, tname), a[0]))(tname),
           [Slot(lambda o: 0, lambda o: [(v, None) for v in [-1, 0, 10 ** 6, -10 ** 6, 2 ** 31, 2 ** 63, None, "a", slice(0, 1)]], "row-index")])
     C("nodes.set_columns", "tables", lambda tc, a: (tc.nodes.set_columns(flags=np.zeros(2, dtype=np.uint32), time=np.zeros(2), metadata=np.zeros(3, dtype=np.int8), metadata_offset=a[0]), list(tc.nodes)),
@@ -809,17 +896,39 @@ _ts_methods()
 _table_methods()
 _aliases_and_rest()
 
+from lib.props import c09_ext  # noqa: E402  (audit additions: low-level accessors, argument forms, object states, lifetimes)
+
+c09_ext.register(globals())
+
 # ----------------------------------------------------------------------------- cases
 
-KINDS = ["full", "full", "discrete", "empty", "nosamples"]
+KINDS = ["full", "wrongparents", "discrete", "empty", "nosamples"]
+import re as _re  # noqa: E402
+
+# entries that also get the "big" input (others would spend their time in quadratic Python code or hit recursion limits)
+BIG_ENTRIES = _re.compile(
+    r"^(Tree\.(parent|children|num_children|left_child|right_sib|samples|leaves|nodes|preorder|postorder|timeasc|as_newick|newick|depth|num_samples|"
+    r"num_tracked_samples|siblings|ancestors|path_length|mrca|is_descendant|next_sample|left_sample|traversals/balance|arrays|copy|map_mutations|"
+    r"num_lineages|get_leaves|__init__)|TreeSequence\.(simplify|subset|variants|genotype_matrix|haplotypes|diversity|divergence|"
+    r"allele_frequency_spectrum|mean_descendants|genealogical_nearest_neighbours|trees|ibd_segments/within|edge_diffs|split_edges|decapitate|"
+    r"delete_intervals|extend_haplotypes|dump_text|as_nexus/fasta|kc_distance|count_topologies)|lowlevel\.(Tree\.get_newick|Tree\.traversals|Tree|Variant|"
+    r"stat\(sample_set_sizes\))|Tree options/forms|Variant\.(decode|views)|TableCollection\.(simplify|subset|sort|link_ancestors|ibd_segments|"
+    r"delete_older|misc|keep_intervals)|nodes\.(keep_rows|__getitem__)|edges\.keep_rows|lifetime)$")
+# (not on "big": entries that DUPLICATE edge rows and then run the follow-up probe - tables.ibd_segments() does not reject duplicate
+#  edges and returns 2^depth segments for a unary chain of that depth, see AUDIT-C09.md "left open")
 
 
 def cases(tier, seed):
     only = os.environ.get("VERIF_C09_KINDS")  # development filter, e.g. "oom"
-    if only:
+    names = os.environ.get("VERIF_C09_ONLY")  # development filter: regex on the catalogue entry name (sweep cases)
+    if only or names:
+        import re
         for c in _cases(tier, seed):
-            if c["gen"] in only.split(","):
-                yield c
+            if only and c["gen"] not in only.split(","):
+                continue
+            if names and not (c["gen"] == "sweep" and re.search(names, c["name"])):
+                continue
+            yield c
         return
     yield from _cases(tier, seed)
 
@@ -831,7 +940,13 @@ def _cases(tier, seed):
     def sweep():
         for rep in range(reps):
             for ci in range(len(CAT)):
+                lim = CAT[ci].get("reps")
+                if lim is not None and rep >= (lim if tier == "quick" else lim * 4):
+                    continue
                 yield {"gen": "sweep", "call": ci, "name": CAT[ci]["name"], "rep": rep}
+                if rep == 1 and BIG_ENTRIES.match(CAT[ci]["name"]):
+                    # structurally extreme input (261 children of one node, a 300-node unary chain, 261 samples)
+                    yield {"gen": "sweep", "call": ci, "name": CAT[ci]["name"], "rep": reps, "kind": "big"}
 
     def oom():
         for rep in range(1 if tier == "quick" else 6):
@@ -847,7 +962,10 @@ def _cases(tier, seed):
             for mod in REPO_TEST_MODULES:
                 yield {"gen": "repotests", "module": mod}
 
-    gens = [(repotests(), 1), (sweep(), 8), (oom(), 1), (programs(), 6)]
+    # weights: period 1 + 9 + 1 + 10 = 21 (+1 thorough) is coprime with the usual worker counts (5, 16), so every worker gets
+    # the same mix; programs got heavier per case in the audit and sweep cases more numerous, hence 10 rather than 6
+    # bulk: a dozen cheap cases that grow a table by more than 2^21 rows in one operation; first, so that they always run
+    gens = [(repotests(), 1), (c09_ext.bulk_cases(tier), 1), (sweep(), 9), (oom(), 1), (programs(), 10)]
     live = True
     while live:
         live = False
@@ -865,6 +983,37 @@ OK_EXC = (tskit.LibraryError, ValueError, TypeError, OverflowError, IndexError, 
           LookupError, ImportError, BufferError, RecursionError)
 
 
+FILL8 = b"\xbe" * 8
+
+
+def scan_fill(r, depth=0, budget=None):
+    """True when a returned array / byte string holds an element made only of 0xBE bytes: the ASan runtime fills every fresh
+    malloc block with 0xBE (max_malloc_fill_size=16 MiB, build.py), so such an element was never written by tskit -
+    uninitialised heap memory handed to the caller.  Elements of >= 4 bytes only (a single 0xBE byte is a legitimate value;
+    0xBEBEBEBE as an id/count and 0xBEBEBEBEBEBEBEBE = -1.8e-06 as a coordinate do not occur in the generated inputs)."""
+    if budget is None:
+        budget = [4000]
+    budget[0] -= 1
+    if r is None or depth > 4 or budget[0] < 0:
+        return False
+    if isinstance(r, np.ndarray):
+        if r.dtype == object or r.dtype.itemsize < 4 or r.size == 0 or r.size > 1 << 22 or r.dtype.kind not in "iuf":
+            return False
+        if r.dtype.itemsize == 4:
+            return bool((np.ascontiguousarray(r).view(np.uint32) == 0xBEBEBEBE).any())
+        if r.dtype.itemsize == 8:
+            return bool((np.ascontiguousarray(r).view(np.uint64) == 0xBEBEBEBEBEBEBEBE).any())
+        b = np.ascontiguousarray(r).view(np.uint8).reshape(-1, r.dtype.itemsize)
+        return bool((b == 0xBE).all(axis=1).any())
+    if isinstance(r, (bytes, bytearray)):
+        return FILL8 in r
+    if isinstance(r, dict):
+        return any(scan_fill(v, depth + 1, budget) for v in list(r.values())[:80])
+    if isinstance(r, (list, tuple)):
+        return any(scan_fill(v, depth + 1, budget) for v in r[:200])
+    return False
+
+
 def call_one(ctx, o, entry, args, slot_i, must_raise, desc):
     tgt = {"ts": o.ts, "tree": o.tree, "nulltree": o.nulltree, "tables": o.tables}[entry["target"]]
     if entry["target"] == "tables":
@@ -875,6 +1024,10 @@ def call_one(ctx, o, entry, args, slot_i, must_raise, desc):
         r = entry["fn"](tgt, args)
         consume(r)
         outcome = "returned"
+        ctx.count("fill-pattern-scans")
+        if scan_fill(r):
+            ctx.violation(f"uninitialised-memory-returned/{entry['name']}",
+                          f"{desc}: the result contains elements made of the allocator's 0xBE fill pattern (memory tskit never wrote): {fmt(r)}")
     except SystemError as e:
         ctx.violation(f"systemerror/{entry['name']}", f"{desc} raised SystemError: {e}")
         outcome = "SystemError"
@@ -902,7 +1055,7 @@ def fmt(v):
 def run_sweep(case, ctx):
     rng = case_rng(case)
     entry = CAT[case["call"]]
-    kind = KINDS[(case["rep"] + case["call"]) % len(KINDS)]
+    kind = case.get("kind") or KINDS[(case["rep"] + case["call"]) % len(KINDS)]
     o = Obj(rng, kind)
     ctx.feature("input:" + kind)
     ctx.sig((entry["name"], kind, o.m.signature()), nontrivial=True)
@@ -916,13 +1069,24 @@ def run_sweep(case, ctx):
     ctx.feature("baseline:" + ("ok" if base == "returned" else "raises"))
     if base != "returned":
         ctx.feature(f"baseline-raises:{entry['name']}:{kind}:{base}")
+    # Under valgrind (memcheck companion) a case is ~30x slower and the catalogue has ~440 entries: the companion looks for
+    # uninitialised values in what calls hand back, for which the valid call and a few adversarial values per slot are what
+    # matters, so it runs a light version of each case and gets through the WHOLE catalogue in its 35 s instead of a tenth of it.
+    light = bool(case.get("memcheck"))
+    if light and not entry.get("memcheck", True):
+        return
     for i, s in enumerate(slots):
-        for v, must in s.adversarial(o):
+        adv = s.adversarial(o)
+        if light and len(adv) > 4:
+            adv = rng.sample(adv, 4)
+        for v, must in adv:
             args = list(valid)
             args[i] = v
             call_one(ctx, o, entry, args, i, must, f"{entry['name']}(slot {s.name} = {fmt(v)}; others {[fmt(x) for x in valid]}) on {kind} n={o.n} L={o.L}")
+    if light and case["idx"] % 4:
+        return
     # two slots at once
-    if len(slots) >= 2:
+    if len(slots) >= 2 and not light:
         for _ in range(10):
             args = list(valid)
             for i in rng.sample(range(len(slots)), 2):
@@ -945,6 +1109,8 @@ FLOATCOLS = [("edges", "left"), ("edges", "right"), ("sites", "position"), ("nod
 
 def corrupt(rng, tc):
     """One departure from validity, returns a description."""
+    if rng.random() < 0.45:  # states added by the audit: in-range but inconsistent ids, degenerate coordinates / times, duplicates,
+        return c09_ext.corrupt_more(rng, tc)  # truncated referenced tables, changed sequence_length, flags, stale index, big blobs
     r = rng.random()
     if r < 0.4:
         t, c, ref = rng.choice(REFCOLS)
@@ -1074,16 +1240,24 @@ def run_program(case, ctx):
     tc = to_tables(m)
     if rng.random() < 0.7:
         tc.build_index()
-    how = [corrupt(rng, tc) for _ in range(rng.choice([1, 1, 2, 3]))]
+    pristine = tc.copy()
+    how = []
+    for _ in range(rng.choice([1, 1, 2, 3])):
+        for _attempt in range(5):  # an operator that does not apply to this model (no migrations, ...) is replaced, not wasted
+            h = corrupt(rng, tc)
+            if h != "none":
+                break
+        how.append(h)
     ctx.sig(("program", m.signature(), tuple(how)), nontrivial=any(h != "none" for h in how))
     for h in how:
-        ctx.feature("corrupt:" + h.split("=")[0].split(" mode")[0])
+        ctx.feature("corrupt:" + h.split("=")[0].split(" mode")[0].split(":")[0])
     nops = rng.randint(3, 10)
     for k in range(nops):
-        ops = _ops(rng, tc)
+        ops = _ops(rng, tc) + c09_ext.more_ops(rng, tc, pristine)
         name, fn = rng.choice(ops)
         ctx.step(f"program: corrupt {how}; op {k}: {name}")
         ctx.count("program-ops")
+        ctx.feature("op:" + name.split(":")[0])
         try:
             fn()
             ctx.feature("op-returned")
@@ -1091,6 +1265,18 @@ def run_program(case, ctx):
             ctx.violation(f"systemerror/program/{name}", f"corrupt {how}; op {name} raised SystemError: {e}", {"model": m.to_json()})
         except Exception:  # noqa: BLE001
             ctx.feature("op-raised")
+        # whatever the call did, it must not have stored heap garbage in the tables (0xBE-only elements, see scan_fill)
+        ctx.count("fill-pattern-scans")
+        try:
+            dirty = scan_fill(tc.asdict())
+        except Exception:  # noqa: BLE001
+            dirty = False
+        if dirty:
+            cols = [f"{t}.{c}" for t, d in tc.asdict().items() if isinstance(d, dict) for c, v in d.items() if scan_fill(v)]
+            ctx.violation(f"uninitialised-memory-in-tables/program/{name.split(':')[0]}",
+                          f"corrupt {how}; after op {name} the columns {cols} hold elements made of the allocator's 0xBE fill pattern "
+                          f"(memory tskit never wrote)", {"model": m.to_json()})
+            break
 
 
 # ----------------------------------------------------------------------------- allocation-failure enumeration
@@ -1414,7 +1600,9 @@ def run_case(case, ctx):
         return c09_memcheck.run_memcheck(case, ctx)
     if not hasattr(ctx, "step"):
         ctx.step = lambda d: None
-    if case["gen"] == "sweep":
+    if case["gen"] == "bulk":
+        c09_ext.run_bulk(case, ctx)
+    elif case["gen"] == "sweep":
         run_sweep(case, ctx)
     elif case["gen"] == "program":
         run_program(case, ctx)
